@@ -17,13 +17,48 @@ from ..world import PtyWorld, WouldBlock
 
 sys.setrecursionlimit(100000)
 
-PTY_KINDS = {
-    'select0': {'Poll0', 'LoopPoll', 'RePoll'},
-    'read': {'Read1', 'LoopRead', 'ReadFinal'},
-    'isalive': {'Alive1', 'Alive2', 'EofAliveRaise', 'EofAliveRet'},
-    'selectT': {'Wait'},
+from ..world import FdWorld, SockWorld
+
+TRANSPORTS = {
+    'pty': dict(
+        module='MCPtyRead',
+        consts=lambda q: [('MaxUnits', '= %d' % (3 if q else 4)), ('MaxWrite', '= 2'), ('Sizes', '= {1, 2}' if q else '= {1, 2, 3}'),
+                          ('Tmos', '<- TmosFinite'), ('MaxCalls', '= 3'), ('Fixed', '= TRUE')],
+        invs=['DeliveredPrefix', 'EofOnlyWhenDrained', 'AtMostSize', 'DataNonEmpty', 'Bounded', 'NotEarly'],
+        kinds={'select0': {'Poll0', 'LoopPoll', 'RePoll'}, 'read': {'Read1', 'LoopRead', 'ReadFinal'},
+               'isalive': {'Alive1', 'Alive2', 'EofAliveRaise', 'EofAliveRet'}, 'selectT': {'Wait'}},
+        inter=lambda st, mu: (st['written'] - st['lo'], st['slaveOpen'], st['proc'], st['flagEof'], st['terminated'], mu - st['written']),
+        world=lambda wd, k: PtyWorld(wd, use_poll=bool(k % 2)),
+        variants=1,
+    ),
+    'fd': dict(
+        module='MCFdRead',
+        consts=lambda q: [('MaxUnits', '= %d' % (3 if q else 4)), ('MaxWrite', '= 2'), ('Sizes', '= {1, 2}' if q else '= {1, 2, 3}'),
+                          ('Tmos', '<- TmosFinite'), ('MaxCalls', '= 3')],
+        invs=['DeliveredPrefix', 'EofOnlyWhenDrained', 'AtMostSize', 'DataNonEmpty', 'Bounded', 'NotEarly'],
+        kinds={'select0': {'Select'}, 'selectT': {'Select'}, 'read': {'Read'}},
+        inter=lambda st, mu: (st['written'] - st['lo'], st['peerOpen'], st['flagEof'], mu - st['written']),
+        world=lambda wd, k: FdWorld(wd, kind=('pipe', 'pty', 'sockfd')[k % 3], use_poll=bool((k // 3) % 2)),
+        variants=6,      # every schedule on pipe / pty / socket descriptor x select / poll
+    ),
+    'socket': dict(
+        module='MCSockRead',
+        consts=lambda q: [('MaxUnits', '= %d' % (3 if q else 4)), ('MaxWrite', '= 2'), ('Sizes', '= {1, 2}' if q else '= {1, 2, 3}'),
+                          ('Tmos', '<- TmosFinite'), ('MaxCalls', '= 3'), ('UserTimeouts', '<- UserTimeoutsMC')],
+        invs=['DeliveredPrefix', 'EofOnlyWhenDrained', 'AtMostSize', 'DataNonEmpty', 'Bounded', 'NotEarly', 'SocketTimeoutRestored'],
+        kinds={'settimeout': {'SetTimeout', 'Restore'}, 'recv': {'Recv'}},
+        inter=lambda st, mu: (st['written'] - st['lo'], st['peerOpen'], st['flagEof'], mu - st['written'], st['userTimeout']),
+        world=None,     # needs the user's timeout of the initial state: see make_world
+        variants=1,
+    ),
 }
-PTY_READER = set().union(*PTY_KINDS.values())
+
+
+def make_world(transport, workdir, k, init_state):
+    if transport == 'socket':
+        ut = init_state['userTimeout']
+        return SockWorld(workdir, user_timeout=None if ut == -1 else float(ut))
+    return TRANSPORTS[transport]['world'](workdir, k)
 
 
 def model_graph(ctx, module, cfgname, consts, invariants, tag):
@@ -42,12 +77,12 @@ def projection(st, maxunits):
             maxunits - st['written'])
 
 
-def schedules_from_graph(g, maxunits, reader_names):
+def schedules_from_graph(g, maxunits, reader_names, inter):
     """For every distinct inter-call state (by projection): a shortest prefix from the initial
     state, then every path through one more call until it returns (or blocks); reader actions are
     abstracted to a marker ('R',), peer actions keep their label.  Returns the distinct schedules."""
-    parent = {g.init[0]: None}
-    order = [g.init[0]]
+    parent = {i0: None for i0 in g.init}
+    order = list(g.init)
     for n in order:
         for lab, d in g.edges[n]:
             if d not in parent:
@@ -57,7 +92,7 @@ def schedules_from_graph(g, maxunits, reader_names):
     for n in order:
         st = g.nodes[n]
         if st['pc'] == 'idle':
-            reps.setdefault(projection(st, maxunits), n)
+            reps.setdefault(inter(st, maxunits), n)
 
     def item(lab):
         name = lab.split('(')[0]
@@ -77,16 +112,17 @@ def schedules_from_graph(g, maxunits, reader_names):
             prefix.append(lab)
         prefix.reverse()
         pre = [item(l) for l in prefix]
+        root = m            # the initial state this prefix starts from
         stack = []
 
         def dfs(node, acc):
             nonlocal npaths
             if g.nodes[node]['pc'] == 'idle':
                 npaths += 1
-                key = json.dumps(pre + acc)
+                key = json.dumps([root, pre + acc])
                 if key not in seen:
                     seen.add(key)
-                    out.append(pre + list(acc))
+                    out.append((root, pre + list(acc)))
                 return
             outs = [(l, d) for l, d in g.edges[node] if d != node]
             if not outs:
@@ -101,12 +137,12 @@ def schedules_from_graph(g, maxunits, reader_names):
     return out, len(reps), npaths
 
 
-def replay_pty(args):
-    workdir, schedule, use_poll = args
+def replay_one(args):
+    transport, workdir, schedule, k, init_state = args
     w = None
     out = {'calls': [], 'error': None, 'events': []}
     try:
-        w = PtyWorld(workdir, use_poll=use_poll)
+        w = make_world(transport, workdir, k, init_state)
         w.schedule = [tuple(x) for x in schedule]
         while True:
             w.skip_to_call()
@@ -128,15 +164,21 @@ def replay_pty(args):
                 res = ('TIMEOUT', b'')
             except WouldBlock as e:
                 res = ('BLOCK', b'')
+            except Exception as e:
+                res = ('ERR:' + type(e).__name__, b'')
             finally:
                 w.active = False
-            c = {'size': size, 'tmo': tmo, 'kind': res[0], 'data': res[1].decode('latin-1'),
+            data = res[1] if isinstance(res[1], bytes) else res[1].encode('latin-1')
+            c = {'size': size, 'tmo': tmo, 'kind': res[0], 'data': data.decode('latin-1'),
                  'elapsed': w.clock.now - t0, 'written_before': written0,
                  'written_at_return': len(w.written), 'peer_open': w.peer_open, 'peer_exited': w.peer_exited}
+            if transport == 'socket':
+                c['sock_timeout_after'] = w.a.gettimeout()
+                c['sock_timeout_user'] = w.user_timeout
             out['calls'].append(c)
             if res[0] == 'BLOCK':
                 break
-            w.log(e='ret', kind=res[0], n=len(res[1]), elapsed=int(w.clock.now - t0))
+            w.log(e='ret', kind=res[0], n=len(data), elapsed=int(w.clock.now - t0))
         out['written'] = w.written.decode('latin-1')
         out['events'] = w.events
         out['extra_steps'] = w.extra_steps
@@ -172,54 +214,69 @@ def judge_contract(out):
                 bad.append(('C05:timeout-before-deadline', i))
             if len(delivered) < c['written_before']:
                 bad.append(('C05:timeout-although-data-was-readable', i))
+        elif c['kind'].startswith('ERR:'):
+            bad.append(('C05:poll-raises-other-exception' if c['tmo'] == 0 else 'C04:other-exception-instead-of-eof-or-timeout', i))
         if c['kind'] != 'BLOCK' and c['tmo'] != -1 and c['elapsed'] > c['tmo']:
             bad.append(('C05:returned-after-deadline', i))
+        if 'sock_timeout_after' in c and c['sock_timeout_after'] != c['sock_timeout_user']:
+            bad.append(('C06:socket-timeout-not-restored', i))
     return bad
 
 
-def pty_matcher(g):
-    proj = lambda st: {'lo': st['lo'], 'flagEof': st['flagEof'], 'terminated': st['terminated']}
-    m = graphtrace.Matcher(g, PTY_KINDS, proj)
+def make_matcher(g, transport):
+    T = TRANSPORTS[transport]
+    keys = ('lo', 'flagEof', 'terminated', 'sockTimeout')
+    proj = lambda st: {k: st[k] for k in keys if k in st}
+    m = graphtrace.Matcher(g, T['kinds'], proj)
+    m.obs_keys = keys
+    m.chain_kinds = ('selectT', 'recv')
     call_label = lambda ev: 'CallStart(%d,%d)' % (ev['size'], ev['tmo'])
     ret_ok = lambda st, ev: (st['pc'] == 'idle' and st['ret']['kind'] == ev['kind'] and st['ret']['n'] == ev['n']
                              and st['now'] - st['started'] == ev['elapsed'])
     return m, call_label, ret_ok
 
 
-def run_pty(ctx, pool):
+def run_transport(ctx, pool, transport):
     quick = ctx.quick()
-    maxunits = 3 if quick else 4
-    consts = [('MaxUnits', '= %d' % maxunits), ('MaxWrite', '= 2'), ('Sizes', '= {1, 2}' if quick else '= {1, 2, 3}'),
-              ('Tmos', '= {0, 2}'), ('MaxCalls', '= 3'), ('Fixed', '= TRUE')]
-    invs = ['DeliveredPrefix', 'EofOnlyWhenDrained', 'AtMostSize', 'DataNonEmpty', 'Bounded', 'NotEarly']
-    res, g = model_graph(ctx, 'PtyRead', 'pty.cfg', consts, invs, 'pty')
-    ctx.note('TLC PtyRead: %d distinct states, %d transitions, depth %d; C06/C05 invariants hold in every interleaving' % (
-        res['distinct'], g.n_edges(), res['depth']))
-    # model sensitivity: the code as it was (no re-poll after the slow-platform check) must be caught
-    cfg2 = tlc.write_cfg(os.path.join(ctx.work, 'pty_unfixed.cfg'), constants=consts[:-1] + [('Fixed', '= FALSE')], invariants=invs)
-    r2 = tlc.run('PtyRead', cfg2, ctx.work, workers=4, timeout=300, outname='pty_unfixed.out')
-    if r2['violated'] != 'EofOnlyWhenDrained':
-        raise tlc.TLCError('PtyRead with Fixed=FALSE should violate EofOnlyWhenDrained, got %s' % r2['violated'])
-    scheds, nstates, npaths = schedules_from_graph(g, maxunits, PTY_READER)
+    T = TRANSPORTS[transport]
+    consts = T['consts'](quick)
+    maxunits = int(dict(consts)['MaxUnits'].split()[-1])
+    res, g = model_graph(ctx, T['module'], transport + '.cfg', consts, T['invs'], transport)
+    ctx.note('TLC %s: %d distinct states, %d transitions, depth %d; C06/C05 invariants hold in every interleaving' % (
+        T['module'], res['distinct'], g.n_edges(), res['depth']))
+    if transport == 'pty':
+        # model sensitivity: the code as it was (no re-poll after the slow-platform check) must be caught
+        cfg2 = tlc.write_cfg(os.path.join(ctx.work, 'pty_unfixed.cfg'), constants=consts[:-1] + [('Fixed', '= FALSE')], invariants=T['invs'])
+        r2 = tlc.run(T['module'], cfg2, ctx.work, workers=4, timeout=300, outname='pty_unfixed.out')
+        if r2['violated'] != 'EofOnlyWhenDrained':
+            raise tlc.TLCError('PtyRead with Fixed=FALSE should violate EofOnlyWhenDrained, got %s' % r2['violated'])
+    reader = set().union(*T['kinds'].values())
+    scheds, nstates, npaths = schedules_from_graph(g, maxunits, reader, T['inter'])
     rng = random.Random(ctx.seed * 31 + 5)
-    cap = 3000 if quick else 60000
+    cap = (3000 if quick else 60000) // T['variants']
     if len(scheds) > cap:
         scheds = rng.sample(scheds, cap)
-    jobs = [(ctx.work, s, bool(k % 2)) for k, s in enumerate(scheds)]
+    jobs = []
+    for k, (root, s_) in enumerate(scheds):
+        for v in range(T['variants']):
+            jobs.append((transport, ctx.work, s_, k * T['variants'] + v if T['variants'] == 1 else v, g.nodes[root]))
     t0 = time.time()
-    outs = pool.map(replay_pty, jobs, chunksize=8)
-    ctx.note('pty: %d inter-call states, %d single-call paths -> %d distinct schedules replayed on a real pty child in %.0fs' % (
-        nstates, npaths, len(jobs), time.time() - t0))
-    m, call_label, ret_ok = pty_matcher(g)
+    outs = pool.map(replay_one, jobs, chunksize=8)
+    ctx.note('%s: %d inter-call states, %d single-call paths -> %d distinct schedules, %d replays on the real transport in %.0fs' % (
+        transport, nstates, npaths, len(scheds), len(jobs), time.time() - t0))
+    m, call_label, ret_ok = make_matcher(g, transport)
     stats = {'replayed': len(jobs), 'accepted': 0, 'drift': 0, 'blocked': 0, 'nontrivial': 0, 'steps': 0}
-    for (wd, sched, use_poll), out in zip(jobs, outs):
-        case = {'transport': 'pty', 'schedule': sched, 'use_poll': use_poll}
+    all_init = list(g.init)
+    for job, out in zip(jobs, outs):
+        sched, k = job[2], job[3]
+        case = {'transport': transport, 'schedule': sched, 'k': k, 'init': job[4]}
         if out['error']:
-            raise tlc.TLCError('pty replay crashed: %s\n%s' % (sched, out['error']))
+            raise tlc.TLCError('%s replay crashed: %s\n%s' % (transport, sched, out['error']))
         if any(x[0] == 'P' for x in sched):
             stats['nontrivial'] += 1
         stats['steps'] += sum(1 for e in out['events'] if e['e'] == 'step')
         bad = judge_contract(out)
+        g.init = [n for n in all_init if g.nodes[n] == job[4]]
         ok, at, S = m.match(out['events'], call_label, ret_ok)
         blocked = any(c['kind'] == 'BLOCK' for c in out['calls'])
         stats['blocked'] += blocked
@@ -227,22 +284,24 @@ def run_pty(ctx, pool):
             stats['accepted'] += 1
         for clause, i in bad:
             ctx.fail(clause, case, detail={'calls': out['calls'], 'written': out.get('written'), 'events': out['events']},
-                     signature={'transport': 'pty'})
+                     signature={'transport': transport, 'tmo': out['calls'][i]['tmo'], 'kind': out['calls'][i]['kind']})
         if not ok and not bad:
-            # the execution kept the contract but is not a behaviour of the implementation-shaped model
             stats['drift'] += 1
             if stats['drift'] <= 3:
-                ctx.note('SPEC-DRIFT (pty): event %d %s not explained by PtyRead; schedule %s' % (
-                    at, out['events'][at] if at < len(out['events']) else None, sched))
+                ctx.note('SPEC-DRIFT (%s): event %d %s not explained by the model; schedule %s' % (
+                    transport, at, out['events'][at] if at < len(out['events']) else None, sched))
+    g.init = all_init
+    ctx.note('%s: %d of %d recorded traces (%d system calls) are behaviours of %s; SPEC-DRIFT %d; %d end blocked' % (
+        transport, stats['accepted'], stats['replayed'], stats['steps'], T['module'], stats['drift'], stats['blocked']))
     return res, g, stats, jobs, outs
 
 
 def self_test(ctx, g, jobs, outs):
     """binding self-test: a trace with one corrupted observation must be rejected by the graph
     matcher, and a contract breach must be noticed by the judge"""
-    m, call_label, ret_ok = pty_matcher(g)
+    m, call_label, ret_ok = make_matcher(g, 'pty')
     import copy
-    for (wd, sched, up), out in zip(jobs, outs):
+    for job, out in zip(jobs, outs):
         evs = out['events']
         k = [i for i, e in enumerate(evs) if e['e'] == 'step' and e['k'] == 'read' and e['n'] > 0]
         if k and m.match(evs, call_label, ret_ok)[0]:
@@ -266,26 +325,31 @@ def run(ctx):
     if ctx.replay:
         return replay(ctx)
     print('[%s] transports - tier %s seed %d' % (ctx.pid, ctx.tier, ctx.seed), flush=True)
+    results = {}
     with Pool(14) as pool:
-        res, g, stats, jobs, outs = run_pty(ctx, pool)
-    ctx.note('pty: %d of %d recorded traces (%d system calls) are behaviours of PtyRead; SPEC-DRIFT %d; %d end blocked in the liveness check' % (
-        stats['accepted'], stats['replayed'], stats['steps'], stats['drift'], stats['blocked']))
+        for tr in ('pty', 'fd', 'socket'):
+            results[tr] = run_transport(ctx, pool, tr)
+    res, g, stats, jobs, outs = results['pty']
     ctx.note('binding self-test: ' + self_test(ctx, g, jobs, outs))
     ctx.failures = [f for f in ctx.failures if f.clause.startswith(ctx.pid + ':')]
     status, nviol, nknown = common.conclude(ctx)
+    tot = lambda k: sum(r[2][k] for r in results.values())
     evidence.write(ctx.pid, ctx.tier, ctx.seed, 'model_checking', {
-        'states': res['distinct'], 'transitions': g.n_edges(),
-        'traces_validated_against_impl': stats['replayed'],
-        'samples': [{'schedule': jobs[0][1], 'events': outs[0]['events']},
-                    {'schedule': jobs[len(jobs) // 2][1], 'events': outs[len(jobs) // 2]['events']}],
-        'evaluations': stats['replayed'], 'distinct_nontrivial': stats['nontrivial'],
+        'states': sum(r[0]['distinct'] for r in results.values()),
+        'transitions': sum(r[1].n_edges() for r in results.values()),
+        'traces_validated_against_impl': tot('replayed'),
+        'samples': [{'transport': tr, 'schedule': r[3][len(r[3]) // 2][2], 'events': r[4][len(r[3]) // 2]['events']}
+                    for tr, r in results.items()],
+        'evaluations': tot('replayed'), 'distinct_nontrivial': tot('nontrivial'),
         'rule': 'one replay per distinct schedule (peer actions placed before the k-th reader system call) derived from every '
-                'single-call path out of every distinct inter-call state of the TLC state graph; non-trivial = contains at '
-                'least one peer action',
-        'exhaustive': len(jobs) == stats['replayed'], 'spec_drift': stats['drift'], 'accepted_by_model': stats['accepted'],
+                'single-call path out of every distinct inter-call state of the TLC state graph, per transport (fd: x pipe/pty/'
+                'socket descriptor x select/poll); non-trivial = contains at least one peer action',
+        'exhaustive': not ctx.quick(), 'spec_drift': tot('drift'), 'accepted_by_model': tot('accepted'),
+        'per_transport': {tr: dict(r[2], states=r[0]['distinct']) for tr, r in results.items()},
         'known_findings_hit': nknown,
-    }, assumptions=['Linux pty semantics (readable on hang-up, EIO after the last byte, short reads) are observed on the real kernel',
-                    'peer actions are placed between system calls; races inside a single system call are the kernel\'s'],
+    }, assumptions=['Linux pty / pipe / socket semantics (readable on hang-up, EIO or empty read at the end, short reads) are observed on the real kernel',
+                    'peer actions are placed between system calls; races inside a single system call are the kernel\'s',
+                    'PopenSpawn (reader thread + queue) is covered by its own model (PopenRead)'],
         wall_s=ctx.wall(), violations=nviol)
     return status
 
@@ -293,7 +357,7 @@ def run(ctx):
 def replay(ctx):
     d = json.load(open(ctx.replay))
     c = d['case']
-    out = replay_pty((ctx.work, c['schedule'], c.get('use_poll', False)))
+    out = replay_one((c['transport'], ctx.work, c['schedule'], c.get('k', 0), c.get('init')))
     print(json.dumps(out, indent=1)[:3000])
     bad = [b for b in judge_contract(out) if b[0].startswith(ctx.pid)]
     if bad:
